@@ -32,6 +32,8 @@ pub struct InstanceState {
     most_recent_disposed_generation_count: i32,
     most_recent_no_writers_generation_count: i32,
     last_received_time_stamp: Time,
+    // Most recent source timestamp of the samples accepted for the instance (time based filter)
+    last_accepted_source_timestamp: Option<Time>,
     // Writers that have written the instance and not unregistered it
     registered_writers: Vec<[u8; 16]>,
 }
@@ -45,6 +47,7 @@ impl InstanceState {
             most_recent_disposed_generation_count: 0,
             most_recent_no_writers_generation_count: 0,
             last_received_time_stamp: Time::new(TIME_INVALID_SEC, TIME_INVALID_NSEC),
+            last_accepted_source_timestamp: None,
             registered_writers: Vec::new(),
         }
     }
@@ -450,26 +453,31 @@ impl<T> DataReaderEntity<T> {
             }
         }
 
-        let is_sample_of_interest_based_on_time = {
-            let closest_timestamp_before_received_sample = self
+        // A sample is of interest if it is at least minimum_separation away (earlier or later) from
+        // every sample of the instance that is still stored and from the most recent one that was
+        // accepted, which may have been taken already
+        let is_sample_of_interest_based_on_time = match sample.source_timestamp {
+            Some(sample_source_time) => self
                 .sample_list
                 .iter()
                 .filter(|cc| cc.instance_handle == sample.instance_handle)
-                .filter(|cc| cc.source_timestamp <= sample.source_timestamp)
-                .map(|cc| cc.source_timestamp)
-                .max();
-
-            if let Some(Some(t)) = closest_timestamp_before_received_sample {
-                if let Some(sample_source_time) = sample.source_timestamp {
-                    let sample_separation = sample_source_time - t;
+                .filter_map(|cc| cc.source_timestamp)
+                .chain(
+                    self.instances
+                        .iter()
+                        .find(|x| x.handle() == &sample.instance_handle)
+                        .and_then(|x| x.last_accepted_source_timestamp),
+                )
+                .all(|t| {
+                    let sample_separation = if sample_source_time >= t {
+                        sample_source_time - t
+                    } else {
+                        t - sample_source_time
+                    };
                     DurationKind::Finite(sample_separation)
                         >= self.qos.time_based_filter.minimum_separation
-                } else {
-                    true
-                }
-            } else {
-                true
-            }
+                }),
+            None => true,
         };
 
         if !is_sample_of_interest_based_on_time {
@@ -602,11 +610,14 @@ impl<T> DataReaderEntity<T> {
 
         if let Some(instance) = self
             .instances
-            .iter()
+            .iter_mut()
             .find(|x| x.handle() == &sample.instance_handle)
         {
             sample.disposed_generation_count = instance.most_recent_disposed_generation_count;
             sample.no_writers_generation_count = instance.most_recent_no_writers_generation_count;
+            if sample.source_timestamp > instance.last_accepted_source_timestamp {
+                instance.last_accepted_source_timestamp = sample.source_timestamp;
+            }
         }
 
         let sample_writer_guid = sample.writer_guid;
